@@ -58,6 +58,10 @@ DET = {
  'C09-1': (False, 'C09', '', '-', 'C09 is not applicable (no check)'),
  'C09-2': (False, 'C09', '', '-', 'C09 is not applicable (no check)'),
  'C09-3': (False, 'C09', '', '-', 'C09 is not applicable (no check)'),
+ 'C05-5': (None, 'C03', '', 'quick', 'winding_order on rounded (shifted) coordinates: the C05 check alone passes; reported by the C03 check, where the ill-conditioned orientation / winding-order triples live'),
+ 'C02-5': (None, 'C02', '', 'thorough', 'missed by the quick tier (ring-start rotations are in the thorough tier)'),
+ 'C12-4': (None, 'C12', '', 'quick', 'interior_point (scan line / sweep) is not under contract'),
+ 'C06-4': (None, 'C06', '', 'quick', 'add_ring itself is abstract in the Verus unit (and invisible to exact arithmetic: a rounding threshold); caught by the f64 scaling harness'),
 }
 OVERRIDE = {}
 try:
